@@ -149,6 +149,12 @@ def cases(rng, quick, gr):
                             return None
                         return "an %s with a complex element was turned into a program: %r" % (t.split("\n")[-4], p.variables.get("AC9"))
                     yield {"tag": "complex-in-real-array", "pred": pred, "key": t, "input": {"check": "must-refuse", "text": t}}
+    # reserved names declared with string and boolean LITERAL values (and matching or non-matching declared types)
+    for nm in ["q0", "q12", "name", "version", "target", "type"]:
+        for ty, v in [("str", '"abc"'), ("bool", "True"), ("int", '"7"'), ("str", "False"), ("bool", '"x"'), ("float", "True")]:
+            t = HDR + DECLS + "%s %s = %s\nVac | 0\n" % (ty, nm, v)
+            texts.append(t)
+            yield {"tag": "reserved-literal-value", "text": t}
     # a name that WAS a loop variable is undefined again after its loop: used afterwards in every slot
     for slot, tmpl in SLOTS.items():
         for lv in ["m", "idx"]:
